@@ -14,7 +14,7 @@ import (
 // one iteration of the flusher (one Sleep call of the package).
 
 func init() {
-	drivers["C10"] = &driver{cases: tierN(240, 4000), run: runC10}
+	drivers["C10"] = &driver{cases: tierN(240, 20000), run: runC10}
 }
 
 // diskStatus compares the decoded directory with the model.
